@@ -292,6 +292,9 @@ def run_shard(spec, acc):
         if spec['shard'] == 1:
             # string literals written by hand: every body of up to four pieces over backslash, both quotes and letters, in both quote
             # styles - a backslash escapes only a backslash or the delimiting quote; before anything else it is an ordinary character
+            # number literals at and beyond the double range: the leaf is the double the text denotes (an overflowing literal is infinite)
+            for num in ('1e+308', '1e+309', '1e+400', '9' * 310, '1e-400', '1.7976931348623157e+308', '2 * 1e+999', 'fn(1e+309, 5e-324)', '0 - 1e+309'):
+                check_text(num, acc, parse_expression, perr, kind='number-literal')
             pieces = ['a', '\\', "'", '"', 'n', ' ']
             for q in ("'", '"'):
                 for k in range(0, 5):
